@@ -71,6 +71,7 @@ func runC04(c *Ctx) {
 	L.Rule("range-args-fresh", "the start, end and modulo handed to PartitionSet.AddRange by the partition parser are computed from the tokens of the current interval (or constants) on every path: no interval inherits a bound or a step from the previous one")
 	c.checkCallArgsFresh("range-args-fresh", c.fn("io/partition", "*Parser", "parse"), "AddRange", []int{3, 4, 5}, []string{"start", "end", "modulo"})
 	L.Floor("range-args-fresh", 3, "three numeric arguments")
+	c.checkComplementShape("complement-shape")
 }
 
 // splitGuard: in Split, CharAt(pos)/sequence[pos] are safe because
